@@ -1,5 +1,6 @@
 import LeptosModel.Proofs.Async
 import LeptosModel.Proofs.AsyncSusp
+import LeptosModel.Proofs.AsyncRun
 /-!
 # C10 — async derived values settle on the latest inputs
 
@@ -53,7 +54,7 @@ theorem SameHist.trans {a b c : State} (h1 : SameHist a b) (h2 : SameHist b c) :
   ⟨h2.1.trans h1.1, h2.2.1.trans h1.2.1, h2.2.2.1.trans h1.2.2.1, fun h => h1.2.2.2 (h2.2.2.2 h)⟩
 
 theorem applyResult_hist (s : State) : SameHist s (applyResult s) := by
-  simp only [applyResult, SameHist]
+  simp only [applyResult, postReads, SameHist]
   split <;> simp
 
 theorem smUpdate_hist (s : State) : SameHist s (smUpdate s).1 := by
@@ -193,8 +194,11 @@ theorem step_hist (s : State) (e : Event) :
         have h := fin _ (smMarkDirty_hist { s with src := setAt s.src i v })
         exact ⟨h.1, h.2.1, h.2.2.1, fun hh => .inl (h.2.2.2 hh)⟩
       · rw [if_neg hv]
-        have h := fin _ (dMarkDirty_hist { s with src := setAt s.src i v })
-        exact ⟨h.1, h.2.1, h.2.2.1, fun hh => .inl (h.2.2.2 hh)⟩
+        split
+        · have h := fin _ (dMarkDirty_hist { s with src := setAt s.src i v })
+          exact ⟨h.1, h.2.1, h.2.2.1, fun hh => .inl (h.2.2.2 hh)⟩
+        · have h := fin _ (SameHist.refl { s with src := setAt s.src i v })
+          exact ⟨h.1, h.2.1, h.2.2.1, fun hh => .inl (h.2.2.2 hh)⟩
     · exact ⟨rfl, rfl, rfl, .inl⟩
   | refetch =>
     have h : SameHist s (refetch s) := by
@@ -319,20 +323,58 @@ theorem C10_settles_on_latest : C10_settles_on_latest_full := by
   refine ⟨hl, ?_⟩
   unfold expected
   cases hm : (run c es).manualLive
-  · have := (h.dr.fresh (run_stolen c es) hcl).1 hpc hm
-    rw [hin] at this
-    simpa using this
+  · cases hvm : (run c es).viaMemo
+    · -- sources read directly: the recorded run is the fetcher's run on the current sources
+      have hq := ((RInv.run c es).q2 hvm hcl).1 ⟨hpc, (h.dr.r4 (by simp [hpc])).1⟩
+      simp only [evalNow, hvm, Bool.false_eq_true, if_false]
+      rw [← hq.1]
+      simpa using hq.2 hm
+    · have := (h.dr.fresh hvm (run_stolen c es) hcl).1 hpc hm
+      rw [hin] at this
+      simpa [evalNow, hvm] using this
   · simpa using h.dc.m1 hm
 
 /-- In terms of the history alone: without manual writes the settled value is the fetcher applied to the
 latest source values (the sources as the `set` events of the history leave them). -/
 theorem C10_settles_on_latest_history (c : Cfg) (es : List Event)
     (hman : hasManual es = false) (hs : settled (run c es) = true) :
-    (run c es).loading = false ∧ (run c es).value = some (fetchFn (latestSrc c es)) := by
+    (run c es).loading = false ∧ (run c es).value = some (fetchFn (evalNow (run c es))) ∧
+    (run c es).src = latestSrc c es := by
   obtain ⟨h1, h2⟩ := C10_settles_on_latest c es hs
-  refine ⟨h1, ?_⟩
-  rw [h2, expected, run_manualLive c es hman, run_src]
+  refine ⟨h1, ?_, run_src c es⟩
+  rw [h2, expected, run_manualLive c es hman]
   rfl
+
+/-! ## dynamic dependencies -/
+
+/-- Every input read in the LAST run (the one in flight, or the one whose result the derived holds) is
+subscribed — whether it was read when the future was created or after its `await`, in the first run or in a
+later one. -/
+theorem C10_reads_subscribed (c : Cfg) (es : List Event) (hv : (run c es).viaMemo = false) :
+    ∀ p ∈ (run c es).run.log, p.1 ∈ (run c es).dSub :=
+  (RInv.run c es).q1 hv
+
+/-- The dependency set of a run is the set of reads of that run: at a settled point the recorded run is
+exactly what the fetcher reads when it is run from scratch on the CURRENT source values (so, with
+`C10_reads_subscribed`, every input the fetcher would read now is subscribed, and a write to any of them
+starts a refetch), ... -/
+theorem C10_dependency_set_is_reads (c : Cfg) (es : List Event) (hv : (run c es).viaMemo = false)
+    (hs : settled (run c es) = true) :
+    (run c es).run = Run.execAll (run c es).src ((run c es).fx.sync ++ (run c es).fx.post) {} ∧
+    ∀ p ∈ (Run.execAll (run c es).src ((run c es).fx.sync ++ (run c es).fx.post) {}).log, p.1 ∈ (run c es).dSub := by
+  have h := Inv.run c es
+  obtain ⟨hpc, _, hcl, _, _⟩ := settled_waiting h hs
+  have hq := (((RInv.run c es).q2 hv hcl).1 ⟨hpc, (h.dr.r4 (by simp [hpc])).1⟩).1
+  refine ⟨hq, ?_⟩
+  rw [← hq]
+  exact C10_reads_subscribed c es hv
+
+/-- ... and while a fetch is in flight and nothing it has read so far has changed (`Clean`), the reads made
+when its future was created are the fetcher's `sync` reads on the current sources. -/
+theorem C10_in_flight_reads_current (c : Cfg) (es : List Event) (hv : (run c es).viaMemo = false)
+    (hc : (run c es).dstate = .clean) (hpc : (run c es).pc = .fetching) :
+    (run c es).run = Run.execAll (run c es).src (run c es).fx.sync {} :=
+  ((RInv.run c es).q2 hv hc).2 (by simp [hpc])
 
 /-! ## awaiters -/
 
@@ -373,15 +415,19 @@ theorem C10_await_never_panics (c : Cfg) (es : List Event) :
 
 /-! ## synchronous reads -/
 
+/-- the inputs the fetch in flight will have read when its result is produced: what it read when its future
+was created, plus its reads after the `await`, made at the source values of that moment -/
+def resultInputs (s : State) : List Val := (postReads s).curInputs
+
 theorem applyResult_value (s : State) :
-    (applyResult s).value = s.value ∨ (applyResult s).value = some (fetchFn s.curInputs) := by
-  simp only [applyResult]
+    (applyResult s).value = s.value ∨ (applyResult s).value = some (fetchFn (resultInputs s)) := by
+  simp only [applyResult, resultInputs, postReads]
   split <;> simp
 
 theorem fetchState_ready (s : State) (h : (fetchState s).curStatus = .ready) :
-    s.curStatus = .ready ∧ (fetchState s).curInputs = s.curInputs := by
+    s.curStatus = .ready ∧ resultInputs (fetchState s) = resultInputs s := by
   rcases fetchState_cases s with ⟨_, _, _, _, heq⟩ | heq
-  · rw [heq] at h ⊢; exact ⟨h, rfl⟩
+  · rw [heq] at h ⊢; exact ⟨h, by simp [resultInputs, postReads]⟩
   · rw [heq] at h; simp at h
 
 theorem fetchState_value (s : State) : (fetchState s).value = s.value := by
@@ -393,7 +439,7 @@ theorem chk_value (s : State) : (chk s).1.value = s.value := by
 
 theorem dIter_value (s : State) :
     (dIter s).1.value = s.value ∨
-    (s.curStatus = .ready ∧ (dIter s).1.value = some (fetchFn s.curInputs)) := by
+    (s.curStatus = .ready ∧ (dIter s).1.value = some (fetchFn (resultInputs s))) := by
   rw [dIter_def]
   split
   · exact .inl rfl
@@ -412,7 +458,7 @@ theorem dIter_stop_value (s : State) (h : s.chan = false) : (dIter s).1.value = 
 
 theorem dLoop3_value (s : State) :
     (dLoop 3 s).value = s.value ∨
-    (s.curStatus = .ready ∧ (dLoop 3 s).value = some (fetchFn s.curInputs)) := by
+    (s.curStatus = .ready ∧ (dLoop 3 s).value = some (fetchFn (resultInputs s))) := by
   rw [dLoop_eq]
   split
   · rename_i hc
@@ -421,12 +467,12 @@ theorem dLoop3_value (s : State) :
   · exact dIter_value s
 
 theorem applyResult_curStatus (s : State) : (applyResult s).curStatus = .done := by
-  simp only [applyResult]
+  simp only [applyResult, postReads]
   split <;> simp
 
 theorem pollD_value (s : State) :
     (pollD s).value = s.value ∨
-    (s.curStatus = .ready ∧ (pollD s).value = some (fetchFn s.curInputs)) := by
+    (s.curStatus = .ready ∧ (pollD s).value = some (fetchFn (resultInputs s))) := by
   unfold pollD
   dsimp only
   split
@@ -500,7 +546,9 @@ theorem setSrc_value (s : State) (i : Nat) (v : Val) : (setSrc s i v).value = s.
       exact fin _ (smMarkDirty_value _)
     · dsimp only
       rw [if_neg hv]
-      exact fin _ (dMarkDirty_value _)
+      split
+      · exact fin _ (dMarkDirty_value _)
+      · exact fin _ rfl
   · rfl
 
 /-- A synchronous read after ANY event, in ANY state, returns what it returned before the event —
@@ -512,7 +560,7 @@ never change what is read. -/
 theorem C10_sync_read_is_previous_or_none (s : State) (e : Event) :
     (step s e).value = s.value ∨
     (∃ v, e = .manualSet v ∧ (step s e).value = some v) ∨
-    (∃ j, e = .poll j ∧ s.curStatus = .ready ∧ (step s e).value = some (fetchFn s.curInputs)) := by
+    (∃ j, e = .poll j ∧ s.curStatus = .ready ∧ (step s e).value = some (fetchFn (resultInputs s))) := by
   cases e with
   | set i v =>
     exact .inl (setSrc_value s i v)
@@ -859,5 +907,41 @@ example :
     (run { srcs := [1], isLocal := true }
       [.poll 1, .complete 0, .poll 0, .poll 0, .set 0 5, .poll 0, .poll 0, .poll 0, .complete 1, .poll 0]).value
       = some (fetchFn [5]) := by decide
+
+/-- a fetcher with a conditional read AFTER its await: `flag = s0` is read when the future is created, `extra =
+s1` only if the flag is non-zero, after the await.  First run (flag 0): `s1` is not read, not subscribed, a
+write to it wakes nobody.  Flag := 1: second run reads `s1` for the first time, in its post-await part — from
+then on a write to `s1` starts a refetch (round-3 seed 1 leaves the value on `fetch(1, 6)` here). -/
+def dynCfg : Cfg := { srcs := [0, 5], fx := some { sync := [.src 0], post := [.ifFlag 1] } }
+
+example :
+    (run dynCfg [.poll 0, .complete 0, .poll 0]).value = some (fetchFn [0]) ∧
+    (1 ∉ (run dynCfg [.poll 0, .complete 0, .poll 0]).dSub) ∧
+    readyList (run dynCfg [.poll 0, .complete 0, .poll 0, .set 1 6]) = [] ∧
+    settled (run dynCfg [.poll 0, .complete 0, .poll 0, .set 1 6]) = true ∧
+    expected (run dynCfg [.poll 0, .complete 0, .poll 0, .set 1 6]) = some (fetchFn [0]) ∧
+    (run dynCfg [.poll 0, .complete 0, .poll 0, .set 1 6, .set 0 1, .poll 0, .complete 1, .poll 0]).value
+      = some (fetchFn [1, 6]) ∧
+    (run dynCfg [.poll 0, .complete 0, .poll 0, .set 1 6, .set 0 1, .poll 0, .complete 1, .poll 0]).run.log
+      = [(0, 1), (1, 6)] ∧
+    (1 ∈ (run dynCfg [.poll 0, .complete 0, .poll 0, .set 1 6, .set 0 1, .poll 0, .complete 1, .poll 0]).dSub) ∧
+    readyList (run dynCfg [.poll 0, .complete 0, .poll 0, .set 1 6, .set 0 1, .poll 0, .complete 1, .poll 0,
+      .set 1 7]) = [.d] ∧
+    settled (run dynCfg [.poll 0, .complete 0, .poll 0, .set 1 6, .set 0 1, .poll 0, .complete 1, .poll 0,
+      .set 1 7, .poll 0, .complete 2, .poll 0]) = true ∧
+    (run dynCfg [.poll 0, .complete 0, .poll 0, .set 1 6, .set 0 1, .poll 0, .complete 1, .poll 0,
+      .set 1 7, .poll 0, .complete 2, .poll 0]).value = some (fetchFn [1, 7]) := by decide
+
+/-- an indexed read (`inputs[idx.get()].get()`) made when the future is created: the index moves from source 1
+to source 2 in the second run; the write to source 2 that follows is seen -/
+example :
+    (run { srcs := [0, 5, 6], fx := some { sync := [.src 0, .idx] } } [.poll 0, .complete 0, .poll 0]).run.log
+      = [(0, 0), (1, 5)] ∧
+    settled (run { srcs := [0, 5, 6], fx := some { sync := [.src 0, .idx] } }
+      [.poll 0, .complete 0, .poll 0, .set 0 1, .poll 0, .complete 1, .poll 0, .set 2 9, .poll 0, .complete 2,
+       .poll 0]) = true ∧
+    (run { srcs := [0, 5, 6], fx := some { sync := [.src 0, .idx] } }
+      [.poll 0, .complete 0, .poll 0, .set 0 1, .poll 0, .complete 1, .poll 0, .set 2 9, .poll 0, .complete 2,
+       .poll 0]).value = some (fetchFn [1, 9]) := by decide
 
 end Leptos.Async
